@@ -121,6 +121,13 @@ Check C06_history : forall ops k qc t o, In (k, qc, t, o, false) (run [] ops) ->
        (forall p, In p (all_rrs r) -> (t - t0) / NS <= fst p)).
 Print Assumptions C06_history.
 
+(* the background expiry sweep is invisible: in a history with non-decreasing times, from the
+   empty cache, dropping the sweeps changes no observation *)
+Theorem C06_expire_invisible : forall ops, cop_sorted 0 ops -> run [] ops = run [] (strip ops).
+Proof. exact expire_invisible. Qed.
+Check C06_expire_invisible : forall ops, cop_sorted 0 ops -> run [] ops = run [] (strip ops).
+Print Assumptions C06_expire_invisible.
+
 (* ---- not vacuous ------------------------------------------------------------ *)
 Definition ex_key : key := ([[119]; [99]], 1, false, false).
 Definition ex_up : result := ROk ([(5, 0)], [(7, 1)], [(4294967295, 2)]).
@@ -134,3 +141,5 @@ Example ex_history :
   = [(true, Ok ex_up); (false, Ok (ROk ([(0, 0)], [(2, 1)], [(4294967290, 2)])));
      (true, Ok (RErr 9)); (true, Ok (RErr 9))].
 Proof. vm_compute. reflexivity. Qed.
+Example ex_sorted : cop_sorted 0 [Query ex_key 1 0 ex_up; Expire (3 * NS); Query ex_key 1 (5 * NS) (RErr 9); Expire (6 * NS)].
+Proof. unfold NS. simpl. lia. Qed.
